@@ -13,6 +13,7 @@ pub open spec fn leaf_ok(c: Option<RecordType>) -> bool {
         Some(RecordType::ClauseValueCheck(ClauseCheck::MissingBlockValue(m))) => m.from is UnResolved,
         Some(RecordType::ClauseValueCheck(ClauseCheck::Comparison(cc))) => cc.status == Status::FAIL ==> {
             &&& !(cc.from is Literal)
+            &&& (cc.from is Resolved ==> cc.to is Some)
             &&& (cc.from is Resolved && cc.to is Some ==> !(cc.to->Some_0 is Literal))
             &&& (cc.from is Resolved && cc.to is Some && cc.to->Some_0 is Resolved ==> is_binary_op(cc.comparison.0))
         },
@@ -30,3 +31,115 @@ pub open spec fn wf_rec(r: EventRecord) -> bool
 pub open spec fn wf_recs(s: Seq<EventRecord>) -> bool {
     forall|i: int| 0 <= i < s.len() ==> wf_rec(#[trigger] s[i])
 }
+
+// shapes() of a pushed / concatenated list (broadcast: the function body needs no anchored proof steps)
+pub mod failed_model {
+use vstd::prelude::*;
+use super::*;
+// ---- C09: what the failure report of a list of records must contain (texts other than custom messages are opaque) ----
+pub enum Shape {
+    RuleE { name: Seq<char>, custom: Option<Seq<char>>, kids: Seq<Shape> },
+    BlockE { custom: Option<Seq<char>> },
+    DisjE { kids: Seq<Shape> },
+    ClauseE { custom: Option<Seq<char>> },
+}
+
+pub open spec fn opt_view(o: Option<String>) -> Option<Seq<char>> {
+    match o { Some(s) => Some(s@), None => None }
+}
+
+// the report side: shape of the entries actually produced
+pub open spec fn shape_of(cr: ClauseReport) -> Shape
+    decreases cr, 0nat
+{
+    match cr {
+        ClauseReport::Rule(rr) => Shape::RuleE { name: rr.name@, custom: opt_view(rr.messages.custom_message), kids: shapes_n(rr.checks@, rr.checks@.len()) },
+        ClauseReport::Block(b) => Shape::BlockE { custom: opt_view(b.messages.custom_message) },
+        ClauseReport::Disjunctions(d) => Shape::DisjE { kids: shapes_n(d.checks@, d.checks@.len()) },
+        ClauseReport::Clause(GuardClauseReport::Unary(u)) => Shape::ClauseE { custom: opt_view(u.messages.custom_message) },
+        ClauseReport::Clause(GuardClauseReport::Binary(b)) => Shape::ClauseE { custom: opt_view(b.messages.custom_message) },
+    }
+}
+pub open spec fn shapes_n(s: Seq<ClauseReport>, n: nat) -> Seq<Shape>
+    decreases s, n
+{
+    if n == 0 || n > s.len() { Seq::empty() } else { shapes_n(s, (n - 1) as nat).push(shape_of(s[n - 1])) }
+}
+pub open spec fn shapes(s: Seq<ClauseReport>) -> Seq<Shape> { shapes_n(s, s.len()) }
+
+// the record side, from the property: a FAIL rule is one Rule entry (name, the rule's custom message, the failures of ITS
+// subtree) even when nothing below it can be shown; failing blocks / when / type blocks are transparent; a failing `or`
+// line groups its alternatives; a failing value check is one entry carrying the clause's custom message; PASS / SKIP
+// records and successful checks contribute nothing.
+pub open spec fn leaf_shape(c: ClauseCheck) -> Seq<Shape> {
+    match c {
+        ClauseCheck::Success => Seq::empty(),
+        ClauseCheck::NoValueForEmptyCheck(msg) => seq![Shape::ClauseE { custom: Some(one_line(msg)) }],
+        ClauseCheck::DependentRule(m) => seq![Shape::ClauseE { custom: Some(msg_or_empty(m.custom_message)) }],
+        ClauseCheck::MissingBlockValue(m) => seq![Shape::BlockE { custom: Some(msg_or_empty(m.custom_message)) }],
+        ClauseCheck::Unary(u) => if u.value.status == Status::FAIL { seq![Shape::ClauseE { custom: Some(msg_or_empty(u.value.custom_message)) }] } else { Seq::empty() },
+        ClauseCheck::Comparison(c) => if c.status == Status::FAIL { seq![Shape::ClauseE { custom: Some(msg_or_empty(c.custom_message)) }] } else { Seq::empty() },
+        ClauseCheck::InComparison(c) => if c.status == Status::FAIL { seq![Shape::ClauseE { custom: opt_view(c.custom_message) }] } else { Seq::empty() },
+    }
+}
+
+pub open spec fn one_rec(r: EventRecord) -> Seq<Shape>
+    decreases r, 0nat
+{
+    let kids = many_recs(r.children@, r.children@.len());
+    match r.container {
+        Some(RecordType::RuleCheck(ns)) => if ns.status == Status::FAIL { seq![Shape::RuleE { name: ns.name@, custom: opt_view(ns.message), kids: kids }] } else { Seq::empty() },
+        Some(RecordType::BlockGuardCheck(bc)) => if bc.status == Status::FAIL { if r.children@.len() == 0 { seq![Shape::BlockE { custom: None }] } else { kids } } else { Seq::empty() },
+        Some(RecordType::Disjunction(bc)) => if bc.status == Status::FAIL { seq![Shape::DisjE { kids: kids }] } else { Seq::empty() },
+        Some(RecordType::GuardClauseBlockCheck(bc)) => if bc.status == Status::FAIL { kids } else { Seq::empty() },
+        Some(RecordType::WhenCheck(bc)) => if bc.status == Status::FAIL { kids } else { Seq::empty() },
+        Some(RecordType::TypeBlock(st)) => if st == Status::FAIL { kids } else { Seq::empty() },
+        Some(RecordType::TypeCheck(tb)) => if tb.block.status == Status::FAIL { kids } else { Seq::empty() },
+        Some(RecordType::ClauseValueCheck(c)) => leaf_shape(c),
+        _ => Seq::empty(),
+    }
+}
+pub open spec fn many_recs(s: Seq<EventRecord>, n: nat) -> Seq<Shape>
+    decreases s, n
+{
+    if n == 0 || n > s.len() { Seq::empty() } else { many_recs(s, (n - 1) as nat) + one_rec(s[n - 1]) }
+}
+
+pub proof fn lemma_shapes_prefix(a: Seq<ClauseReport>, b: Seq<ClauseReport>, n: nat)
+    requires n <= a.len(),
+    ensures shapes_n(a + b, n) == shapes_n(a, n),
+    decreases n
+{
+    if n > 0 {
+        lemma_shapes_prefix(a, b, (n - 1) as nat);
+        assert((a + b)[n - 1] == a[n - 1]);
+    }
+}
+pub proof fn lemma_shapes_concat_n(a: Seq<ClauseReport>, b: Seq<ClauseReport>, n: nat)
+    requires n <= b.len(),
+    ensures shapes_n(a + b, a.len() + n) == shapes_n(a, a.len()) + shapes_n(b, n),
+    decreases n
+{
+    if n == 0 {
+        lemma_shapes_prefix(a, b, a.len());
+        assert(shapes_n(a, a.len()) + Seq::<Shape>::empty() =~= shapes_n(a, a.len()));
+    } else {
+        lemma_shapes_concat_n(a, b, (n - 1) as nat);
+        assert((a + b)[a.len() + n - 1] == b[n - 1]);
+        assert(shapes_n(a, a.len()) + shapes_n(b, (n - 1) as nat).push(shape_of(b[n - 1])) =~= (shapes_n(a, a.len()) + shapes_n(b, (n - 1) as nat)).push(shape_of(b[n - 1])));
+    }
+}
+pub broadcast proof fn lemma_shapes_concat(a: Seq<ClauseReport>, b: Seq<ClauseReport>)
+    ensures #[trigger] shapes(a + b) == shapes(a) + shapes(b),
+{
+    lemma_shapes_concat_n(a, b, b.len());
+}
+pub broadcast proof fn lemma_shapes_push(a: Seq<ClauseReport>, e: ClauseReport)
+    ensures #[trigger] shapes(a.push(e)) == shapes(a).push(shape_of(e)),
+{
+    lemma_shapes_prefix(a, seq![e], a.len());
+    assert(a.push(e) =~= a + seq![e]);
+}
+} // mod failed_model
+pub use failed_model::*;
+broadcast use {failed_model::lemma_shapes_concat, failed_model::lemma_shapes_push};
